@@ -359,7 +359,7 @@ def declared_restrictions_stick(ctx, rng):
                 # (a) retries, with and without a malformed extra member
                 for junk in ({}, {"kid": 7}, {"x5u": "not a url"}, {"alg": 5}, {"x5c": "nolist"}):
                     ctx.ev()
-                    k = call(build, kty, how, {**restr, **junk})
+                    k = call(build, kty, how, copy.deepcopy({**restr, **junk}))
                     if not k.ok:
                         ctx.count("restricted_key_refused_at_import")
                         continue
@@ -375,13 +375,15 @@ def declared_restrictions_stick(ctx, rng):
                                       f"{[('ok' if o.ok else o.etype) for o in outs]}", {"kty": kty, "how": how, "declared": restr, "other": junk, "op": op})
                 # (b) the caller edits what the key exported
                 ctx.ev()
-                k = call(build, kty, how, dict(restr))
+                k = call(build, kty, how, copy.deepcopy(restr))
                 if not k.ok:
                     continue
                 key = k.value
                 exports = [call(key.as_dict), call(key.as_dict, private=True) if key.is_private else call(key.as_dict), call(lambda: j.KeySet([key]).as_dict(private=True)["keys"][0])]
                 for e in exports:
                     if e.ok and isinstance(e.value, dict):
+                        if isinstance(e.value.get("key_ops"), list):     # the lists inside an export are the caller's as well
+                            e.value["key_ops"].extend(["sign", "wrapKey", "encrypt", "deriveKey"])
                         e.value.pop("use", None)
                         e.value.pop("key_ops", None)
                         e.value["use"] = "sig" if op == "sign" else "enc"
@@ -393,6 +395,38 @@ def declared_restrictions_stick(ctx, rng):
                     ctx.violation(f"unsuitable-key-accepted:{'use' if 'use' in restr else 'key_ops'}:{op}@after-export-edited",
                                   f"{op} with a {kty} key ({how}) declaring {restr} succeeded after the caller had edited the dicts the key exported",
                                   {"kty": kty, "how": how, "declared": restr, "op": op})
+
+
+                # (c) the caller goes on using (and editing) the dict it handed over at import - the JWK itself, or the parameters beside a PEM / DER /
+                #     generated key - right after the import, or after the key was used once
+                for when in ("right-after-import", "after-one-export"):
+                    ctx.ev()
+                    handed = copy.deepcopy(restr)
+                    if how == "jwk":
+                        handed = {**raw[kty], **handed}
+                        k = call(j.key, handed)
+                    elif kty == "oct":
+                        k = call(j.OctKey.import_key, __import__("refjose.prim", fromlist=["b64u_dec"]).b64u_dec(raw[kty]["k"]), handed)
+                    else:
+                        cls = {"EC": j.ECKey, "OKP": j.OKPKey, "RSA": j.RSAKey}[kty]
+                        k = call(cls.import_key, gen.to_pem(raw[kty], der=(how == "lazy")), handed)
+                    if not k.ok:
+                        continue
+                    key = k.value
+                    if when == "after-one-export":
+                        call(key.as_dict)
+                    if isinstance(handed.get("key_ops"), list):
+                        handed["key_ops"].extend(["sign", "wrapKey", "encrypt", "deriveKey"])
+                    if "use" in handed:
+                        handed["use"] = "sig" if op == "sign" else "enc"
+                    o = call(f, key, kty)
+                    ctx.count("calls")
+                    ctx.count("import_dict_edit_cases")
+                    ctx.nontrivial(("import-edit", kty, op, how, when, tuple(restr)))
+                    if o.ok:
+                        ctx.violation(f"unsuitable-key-accepted:{'use' if 'use' in restr else 'key_ops'}:{op}@after-import-dict-edited",
+                                      f"{op} with a {kty} key ({how}) declaring {restr} succeeded after the caller had edited the dict it had handed over at import "
+                                      f"({when})", {"kty": kty, "how": how, "declared": restr, "op": op, "when": when})
 
 
 def mislabelled_key_sizes(ctx, rng):
